@@ -49,10 +49,14 @@ func (p *diffProp) Gen(seed uint64, tier string, i int) Case {
 	genLookback := c.Engine.LookbackMs
 	if p.id == "C01" {
 		c.Engine.Opt = Pick(r, optSets)
+	} else if r.P(0.35) {
+		c.Engine.Opt = Pick(r, []string{"default", "default", "all"}) // the engine as it is configured by default
 	}
 	if (p.id == "C01" || p.id == "C02" || p.id == "C03") && r.P(0.2) {
 		// per-query lookback delta (QueryOpts), different from the engine's
 		c.Engine.QueryLookbackMs = Pick(r, []int64{1000, 30_000, 60_000, 120_000, 300_000, 420_001})
+	} else if r.P(0.15) {
+		c.Engine.EmptyQueryOpts = true // options given, but without a lookback delta: the engine's applies
 	}
 	if p.tune != nil {
 		p.tune(r, &c, g)
